@@ -301,6 +301,7 @@ BAD_RULES = [
     ('{S} static {m}', 'wrong arity'),
     ('{S} dynamic {m} no_such_sizer', 'dynamic without its size field'),
     ('{S} limited {scalar} {m}', 'limited on a field that is no fixed array'),
+    ('{S} greedy {m}', 'greedy on a field that is not the last one'),
 ]
 
 
@@ -315,6 +316,8 @@ def check_bad_rules(schema, xml, patch, which):
                m.name not in s.sizers()]
     if '{scalar}' in rule and not scalars:
         rule, why = BAD_RULES[0]
+    if why.startswith('greedy on') and (len(s.members) < 2 or s.members[0].kind in (DYNARR, LIMARR)):
+        rule, why = BAD_RULES[0]        # (needs a first member that is not the last; counters keep their arrays' names apart)
     line = rule.format(S=s.name, m=s.members[0].name, scalar=scalars[0] if scalars else '')
     det = {'xml': xml, 'patch': (patch or '') + line + '\n', 'why': why}
     try:
